@@ -479,11 +479,11 @@ func ruleP07Renumber(p *Prog, r *Report) {
 	r.check(coll != nil && only, rule, "every-block", p.instrPos(set), "every merged block is renumbered", "not every merged block is renumbered")
 	// the collection is the blocks value returned
 	for i, ret := range returnsOf(parse) {
-		if isNilConst(ret.Results[1]) {
+		if isNilConst(retResult(ret, 1)) {
 			// error return: the loop must still have run (errors carry their blocks)
 			continue
 		}
-		r.check(coll != nil && sameValue(ret.Results[1], coll), rule, fmt.Sprintf("returned-blocks#%d", i), p.instrPos(ret), "the renumbered slice is the one returned", "the blocks returned are not the ones that were renumbered")
+		r.check(coll != nil && sameValue(retResult(ret, 1), coll), rule, fmt.Sprintf("returned-blocks#%d", i), p.instrPos(ret), "the renumbered slice is the one returned", "the blocks returned are not the ones that were renumbered")
 	}
 	// accumulator: acc starts at 0, += len(b.Lines())
 	acc, isPhi := strip(set.Common().Args[0]).(*ssa.Phi)
@@ -550,8 +550,8 @@ func ruleP07ErrMerge(p *Prog, r *Report) {
 	// the merged error list: result #2 of the error return
 	var allErrs ssa.Value
 	for _, ret := range returnsOf(parse) {
-		if !isNilConst(ret.Results[2]) {
-			allErrs = ret.Results[2]
+		if !isNilConst(retResult(ret, 2)) {
+			allErrs = retResult(ret, 2)
 		}
 	}
 	if allErrs == nil {
@@ -607,11 +607,11 @@ func ruleP07ErrMerge(p *Prog, r *Report) {
 	r.check(nOuter == 2, rule, "carry-parses", p.pos(parse.Pos()), "carried text is parsed inside the merge loop and once after it", fmt.Sprintf("expected 2 carry parses in the merge, found %d", nOuter))
 	// records xor errors
 	for i, ret := range returnsOf(parse) {
-		if isNilConst(ret.Results[2]) {
+		if isNilConst(retResult(ret, 2)) {
 			// success: only when the merged error list is empty
 			r.check(knownNil(ret.Block(), allErrs), "P01-norecord", fmt.Sprintf("parallel:return#%d", i), p.instrPos(ret), "records are returned only when the merged error list is empty", "records can be returned although errors were collected")
 		} else {
-			r.check(isNilConst(ret.Results[0]) && isNilConst(ret.Results[1]), "P01-norecord", fmt.Sprintf("parallel:return#%d", i), p.instrPos(ret), "errors -> no records, no blocks", "errors are returned together with records")
+			r.check(isNilConst(retResult(ret, 0)) && isNilConst(retResult(ret, 1)), "P01-norecord", fmt.Sprintf("parallel:return#%d", i), p.instrPos(ret), "errors -> no records, no blocks", "errors are returned together with records")
 		}
 	}
 	// P07-merge-order: within the merge loop, carry results are appended before the batch's own
@@ -837,7 +837,7 @@ func ruleP07EngineSelect(p *Prog, r *Report) {
 	// serial: returns the global; parallel: SerialParser field = the same global
 	okS := false
 	for _, ret := range returnsOf(nsp) {
-		if u, ok := strip(ret.Results[0]).(*ssa.UnOp); ok && u.Op == token.MUL && u.X == ssa.Value(sp) {
+		if u, ok := strip(retResult(ret, 0)).(*ssa.UnOp); ok && u.Op == token.MUL && u.X == ssa.Value(sp) {
 			okS = true
 		}
 	}
